@@ -82,6 +82,13 @@ impl<T> ResourceStorage<T> {
 		self.resources.get_mut(key)
 	}
 
+	/// Whether resources have been sent that `remove_and_add` has not picked
+	/// up yet.
+	#[must_use]
+	pub fn has_pending(&self) -> bool {
+		!self.new_resource_consumer.is_empty()
+	}
+
 	#[must_use]
 	pub fn iter(&self) -> atomic_arena::iter::Iter<T> {
 		self.resources.iter()
